@@ -52,6 +52,11 @@ def work(args):
                 rec['points'] = [impl.pex(q) for q in p.points]
                 rec['normal'] = impl.vex(p.plane.n)
                 rec['center'] = impl.pex(p.center_point)
+                # the public `reverse=True` form of the constructor (what -p and the face flipping of ConvexPolyhedron use)
+                pr_ = ConvexPolygon(tuple(impl.Pt(x) for x in pts), reverse=True)
+                rec['rev_points'] = [impl.pex(x) for x in pr_.points]
+                rec['rev_normal'] = impl.vex(pr_.plane.n)
+                rec['rev_measures'] = impl.call(lambda: (pr_.area(), pr_.length(), p.area(), p.length()))
                 q = -p
                 rec['neg_points'] = [impl.pex(x) for x in q.points]
                 rec['neg_normal'] = impl.vex(q.plane.n)
@@ -105,6 +110,10 @@ def run(ctx, scale=1):
             owners.append((k, 'negvalid'))
             lines.append('mkG %d %s' % (len(r['pts']), ' '.join(tv(p) for p in r['pts'])))
             owners.append((k, 'model'))
+            lines.append('validG %s %d %s' % (tv(exact_normal(r['rev_points'], r['rev_normal'])), len(r['rev_points']), ' '.join(tv(p) for p in r['rev_points'])))
+            owners.append((k, 'revvalid'))
+            lines.append('mkGr %d %s' % (len(r['pts']), ' '.join(tv(p) for p in r['pts'])))
+            owners.append((k, 'revmodel'))
         else:
             lines.append('validB %d %s' % (len(r['bfaces']), ' '.join('%s %d %s' % (tv(exact_normal(ps, n)), len(ps), ' '.join(tv(p) for p in ps)) for n, ps, c in r['bfaces'])))
             owners.append((k, 'validB'))
@@ -139,6 +148,25 @@ def run(ctx, scale=1):
                     pr.append('normal %s is not positively parallel to the model normal %s' % (tv(n), tv(mn)))
                 if compare.f3(r['center']) != compare.f3(r['center']) or max(abs(float(a) - float(b)) for a, b in zip(r['center'], mean(cyc))) > 1e-9:
                     pr.append('centre %s is not the vertex mean' % (tv(r['center']),))
+                # reverse=True: same vertices, counter-clockwise about the REVERSED normal, same cycle as the model, same measures
+                rg = [tuple(F(c) for c in p) for p in r['rev_points']]
+                rn = tuple(F(c) for c in r['rev_normal'])
+                if sorted(rg) != sorted(cyc):
+                    pr.append('ConvexPolygon(..., reverse=True) has other vertices')
+                if r['revvalid'] != 'true':
+                    pr.append('ConvexPolygon(..., reverse=True) is not a counter-clockwise convex cycle about its normal (Lean judge: %s)' % r['revvalid'])
+                if not (compare.dir_par(rn, n) and float(dot(rn, n)) < 0):
+                    pr.append('ConvexPolygon(..., reverse=True) does not have the opposite normal')
+                rm = r['revmodel'].split()
+                if rm[0] != 'G' or rm[-1] != 'true':
+                    raise RuntimeError('model constructor (reverse) failed on %s: %s' % (key, r['revmodel']))
+                rk = int(rm[1])
+                rmp = [tuple(F(x) for x in rm[2 + 3 * i:5 + 3 * i]) for i in range(rk)]
+                if not rot_equal(rg, rmp):
+                    pr.append('reverse=True vertex cycle %s differs from the model constructor\'s cycle %s' % ([tv(p) for p in rg], [tv(p) for p in rmp]))
+                ms = r['rev_measures']
+                if ms[0] != 'ok' or abs(ms[1][0] - ms[1][2]) > 1e-9 * max(1.0, abs(ms[1][2])) or abs(ms[1][1] - ms[1][3]) > 1e-9 * max(1.0, abs(ms[1][3])):
+                    pr.append('reverse=True changes the measures: (area, length, area of p, length of p) = %s' % (ms[1:] if ms[0] != 'ok' else ms[1],))
                 # negation
                 ng = [tuple(F(c) for c in p) for p in r['neg_points']]
                 nn = tuple(F(c) for c in r['neg_normal'])
